@@ -331,7 +331,11 @@ func main() {
 	distinct := map[string]bool{}
 	for ti, tr := range traces {
 		rep.Traces++
-		e := newEnv(tr.Cfg, ti)
+		variant := ti
+		if v, ok := tr.Cfg["Variant"]; ok {
+			variant = mbt.Int(v)
+		}
+		e := newEnv(tr.Cfg, variant)
 		vs := types.NewVoteSet(chainID, e.height, e.round, e.typ, e.valSet)
 		// independent oracle state: blocks each validator validly signed and offered
 		offered := make([]map[string]bool, e.n)
